@@ -18,7 +18,7 @@ from vfacts import strip, walk, method_name, root_path, known_facts, is_node
 from .prov import var_table
 
 RULE = 'UNIONCONTRIB'
-FLOOR = 40
+FLOOR = 30
 FUNCS = ('Union', 'UnionDisjointStates')
 CORES = ('ExplicitTreeAutCore', 'ExplicitFiniteAutCore', 'BDDBUTreeAutCore', 'BDDTDTreeAutCore')
 ANCHORS = ['%s::%s' % (c, f) for c in CORES for f in FUNCS]
